@@ -20,8 +20,8 @@ def known_names(pid=None):
 
 def print_known(pid, seen):
     for k in core.known_findings():
-        if k['name'] in seen and k.get('status') == 'known' and pid in k.get('properties', []):
-            print(f'KNOWN-FINDING: property={pid} {k["name"]}: {k["signature"]}')
+        if k.get('status') == 'known' and pid in k.get('properties', []):
+            print(f'KNOWN-FINDING: property={pid} {k["name"]}: {k["signature"]}' + ('' if k['name'] in seen else ' [listed; not met by the workloads of this run]'))
 
 def tlc_trace(module, tracefile, invs, outdir, extra_consts='', spec='Spec'):
     os.makedirs(outdir, exist_ok=True)
